@@ -42,6 +42,11 @@ func c10Pool() []string {
 		/* 11 */ "BASE EQU 0x0ff0\nOFS EQU 4\n\tMOV BYTE [BASE],8\n\tMOV AX,[BX+OFS*2]\n\tMOV CX,(BASE+OFS)*2-1\n\tAND EAX,0x7fffffff\n\tIMUL ECX,4608\n\tSHL AX,OFS\n",
 		/* 12 */ shared,
 		/* 13 */ "[BITS 32]\n" + shared,
+		/* 15 */ "fin EQU 5\nmsg EQU 0x1234\nputloop EQU 7\nentry EQU 1\nlast EQU 3\n\tMOV AX,fin\n\tDW msg,putloop,entry,last\n",
+		/* 16 */ "[FORMAT \"WCOFF\"]\n[BITS 32]\n\tGLOBAL _a1, _a2, _b1, _b2, _c1, _c2\n[SECTION .text]\n_a1:\n_a2:\n\tRET\n_b2:\n_b1:\n\tNOP\n\tRET\n_c1:\n_c2:\n\tHLT\n",
+		/* 17 */ "\tMOV AX,LATER\nLATER EQU 9\n\tMOV BX,LATER\n\tJMP done\ndone:\n\tHLT\n",
+		/* 18 */ "[FORMAT \"WCOFF\"]\n[BITS 32]\n\tGLOBAL _long_name_alpha, _long_name_beta, _short\n[SECTION .text]\n_long_name_alpha:\n\tRET\n_long_name_beta:\n\tNOP\n\tRET\n_short:\n\tHLT\n",
+		/* 19 */ "[FORMAT \"WCOFF\"]\n[BITS 32]\n\tGLOBAL _another_long_one, _long_name_beta, _long_name_alpha\n[SECTION .text]\n_another_long_one:\n\tRET\n_long_name_beta:\n\tRET\n_long_name_alpha:\n\tHLT\n",
 		/* 14 */ "SECT EQU 18\nHEADS EQU SECT/9\n\tMOV AX,SECT*512\n\tMOV CX,SECT\n\tMOV AL,[BX+SECT]\n\tDB SECT,HEADS\n\tMOV DX,[SI+HEADS+1]\n\tMOV BX,[BP-2+SI]\n",
 	}
 }
